@@ -124,6 +124,13 @@ impl TermSegments {
         }
         // Cold path: reverse-scan historical segments.
         let count = self.seg_count.load(Ordering::Acquire);
+        if count > MAX_TERM_SEGMENTS {
+            // on_append() keeps counting after the arrays are full but stores nothing: the
+            // segments beyond the arrays are unknown here. Answer None so that entry_term()
+            // falls back to the SkipMap instead of reading past the arrays (or returning the
+            // term of an older segment).
+            return None;
+        }
         (0..count).rev().find_map(|i| {
             let start = self.seg_starts[i].load(Ordering::Acquire);
             if start <= index {
